@@ -134,7 +134,9 @@ class RemoteState(dict):
             if patches is not None and name in patches:
                 sub = patches[name]
                 if isinstance(sub, dict):
-                    sub_patches.append(RemoteState._patches_t(it, name, sub))
+                    # a copy: the restored child is written into its parent's patches later on (`child_restored`),
+                    # which must not be the dictionary the caller has passed to `loads`
+                    sub_patches.append(RemoteState._patches_t(it, name, dict(sub)))
                     dummy = False
 
             if dummy:
